@@ -98,6 +98,8 @@ def classes(case):
 SUBS = [
     Sub("large-models", check_large, gen=lambda tier: _bool.large_models(), nontrivial=lambda case: True, classes=_bool.large_classes,
         n={"quick": 60, "thorough": 1500}, essential=["group>=57", "group>=257"]),
+    Sub("twin-subtrees", check, gen=lambda tier: _bool.twin_subtree_models(), nontrivial=lambda case: True,
+        classes=lambda case: {"twin-subtrees"}, n={"quick": 150, "thorough": 2000}),
     Sub("constraint-lists", check, gen=lambda tier: _bool.constraint_list_models(), nontrivial=nontrivial, classes=classes,
         n={"quick": 200, "thorough": 2500}, essential=["with-ctcs"]),
     Sub("edit-histories", check, gen=lambda tier: _bool.edit_histories(S.BOOLEAN_ANY, 10, with_ctcs=True),
